@@ -83,8 +83,11 @@ class UDPListener:
         if self.startup_broadcast and self.is_enabled:
             self.log.debug('Sending startup UDP broadcast.')
             for port in self.ports:
-                self.sock.sendto(self._getMessage(port),
-                                 ('255.255.255.255', UDP_PORT))
+                try:
+                    self.sock.sendto(self._getMessage(port),
+                                     ('255.255.255.255', UDP_PORT))
+                except OSError as e:
+                    self.log.debug('startup UDP broadcast failed: %r', e)
         self.running = True
         while self.running and self.is_enabled:
             try:
@@ -100,7 +103,12 @@ class UDPListener:
             self.log.debug('Answering UDP broadcast from: %s',
                            format_address(addr))
             for port in self.ports:
-                self.sock.sendto(self._getMessage(port), addr)
+                try:
+                    self.sock.sendto(self._getMessage(port), addr)
+                except OSError as e:
+                    # e.g. a request with source port 0 can not be answered
+                    self.log.debug('can not answer to %s: %r',
+                                   format_address(addr), e)
 
     def shutdown(self):
         self.log.debug('shut down of discovery listener')
